@@ -25,7 +25,7 @@ pub struct Ctx {}
 const MEM_LIMIT_KB: u64 = 2 * 1024 * 1024; // ulimit -v
 const MEM_BASE_KB: u64 = 48 * 1024; // budget: 48 MiB + 256 bytes per input byte
 const CPU_BASE_MS: u64 = 1500; // budget: 1.5 s + 4 us per input byte
-const HANG_SECS: u64 = 20; // no progress of the child for this long = hang
+const HANG_SECS: u64 = 60; // no progress of the child for this long = hang
 
 fn mem_budget_kb(input_bytes: usize) -> u64 {
     MEM_BASE_KB + (input_bytes as u64) / 4
@@ -252,6 +252,24 @@ fn doc_annotations(req: &Sx) -> String {
     doc
 }
 
+/// n annotations, each with one inline data item (with or without "@id", same key or one key each)
+fn doc_scale(n: usize, hasid: bool, samekey: bool) -> String {
+    let mut doc = String::from(r#"{"@type":"AnnotationStore","@id":"c19","resources":[{"@type":"TextResource","@id":"r","text":"abcdefghij"}],"annotations":["#);
+    for i in 0..n {
+        if i > 0 {
+            doc.push(',');
+        }
+        let id = if hasid { format!(r#""@id":"d{}","#, i) } else { String::new() };
+        let key = if samekey { "k".to_string() } else { format!("k{}", i) };
+        doc.push_str(&format!(
+            r#"{{"@type":"Annotation","@id":"a{}","target":{{"@type":"ResourceSelector","resource":"r"}},"data":[{{"@type":"AnnotationData",{}"set":"s","key":"{}","value":{{"@type":"Int","value":{}}}}}]}}"#,
+            i, id, key, i
+        ));
+    }
+    doc.push_str("]}");
+    doc
+}
+
 /// (2 strip arrays): one data set with one `data` array per entry of arrays
 fn doc_data(req: &Sx) -> String {
     let mut doc = String::from(r#"{"@type":"AnnotationStore","@id":"c19","annotationsets":[{"@type":"AnnotationDataSet","@id":"s","keys":[{"@type":"DataKey","@id":"k"}]"#);
@@ -366,6 +384,10 @@ fn map_int(j: &J, v: usize) -> Option<J> {
 enum Load {
     JsonStr(String, Config),
     File(String, Config),
+    /// load the first document, then merge_json_str the second into the store
+    Merge(String, String, Config),
+    /// load both (n and 4n items); the cpu times are compared
+    Scale(String, String),
     None,
 }
 
@@ -547,8 +569,65 @@ fn prepare(req: &Sx, dir: &str, cache: &mut Cache) -> Case {
             Case { load: Load::File(format!("{}/m.store.stam.cbor", dir), Config::default()), input_bytes: b.len(), report: report_none, probe: false, note }
         }
         7 => prepare_targeted(req, dir, cache),
+        8 => {
+            let n = req.nth(1).int().max(0) as usize;
+            let hasid = req.nth(2).int() != 0;
+            let samekey = req.nth(3).int() != 0;
+            let d1 = doc_scale(n, hasid, samekey);
+            let d4 = doc_scale(4 * n, hasid, samekey);
+            let bytes = d4.len();
+            Case { load: Load::Scale(d1, d4), input_bytes: bytes, report: report_none, probe: false, note: "scale" }
+        }
+        9 => {
+            let mut first = String::from(PRELUDE);
+            first.push_str(r#","annotations":[{"@type":"Annotation","@id":"base","target":{"@type":"ResourceSelector","resource":"r"},"data":[]}]}"#);
+            // the arrays of the request as a document of their own
+            let as1 = l(vec![a(1), req.nth(1).clone(), a(0), req.nth(2).clone()]);
+            let full = doc_annotations(&as1);
+            let second = format!("{{\"@type\":\"AnnotationStore\"{}", &full[PRELUDE.len()..]);
+            let n = first.len() + second.len();
+            Case { load: Load::Merge(first, second, Config::default().with_strip_temp_ids(req.nth(1).int() != 0)), input_bytes: n, report: report_annotations, probe: true, note: "merge" }
+        }
+        10 => prepare_files(req, dir),
         _ => Case { load: Load::None, input_bytes: 0, report: report_none, probe: false, note: "unknown" },
     }
+}
+
+/// (10 which): documents that refer to files in unusual ways; measured only
+fn prepare_files(req: &Sx, dir: &str) -> Case {
+    let which = req.nth(1).int();
+    let store_with = |extra: &str| format!(r#"{{"@type":"AnnotationStore","@id":"x"{},"resources":[{{"@type":"TextResource","@id":"r","text":"hello"}}],"annotations":[{{"@type":"Annotation","@id":"a","target":{{"@type":"ResourceSelector","resource":"r"}},"data":[]}}]}}"#, extra);
+    let mut main = "i.store.stam.json".to_string();
+    match which {
+        0 => write_file(dir, &main, store_with(r#","@include":"i.store.stam.json""#).as_bytes()),
+        1 => {
+            write_file(dir, &main, br#"{"@type":"AnnotationStore","@id":"a","@include":"j.store.stam.json"}"#);
+            write_file(dir, "j.store.stam.json", br#"{"@type":"AnnotationStore","@id":"b","@include":"i.store.stam.json"}"#);
+        }
+        2 => write_file(dir, &main, store_with(r#","@include":["j.store.stam.json","j.store.stam.json","missing.json"]"#).as_bytes()),
+        3 => write_file(dir, &main, br#"{"@type":"AnnotationStore","@id":"x","resources":[{"@type":"TextResource","@id":"r","@include":"missing.txt"}]}"#),
+        4 => write_file(dir, &main, br#"{"@type":"AnnotationStore","@id":"x","resources":[{"@type":"TextResource","@id":"r","@include":"."}]}"#),
+        5 => write_file(dir, &main, br#"{"@type":"AnnotationStore","@id":"x","resources":[{"@type":"TextResource","@id":"r","@include":"/dev/null"}],"annotationsets":[{"@type":"AnnotationDataSet","@id":"s","@include":"/dev/null"}]}"#),
+        6 => write_file(dir, &main, br#"{"@type":"AnnotationStore","@id":"x","annotationsets":[{"@type":"AnnotationDataSet","@id":"s","@include":"i.store.stam.json"}]}"#),
+        7 => write_file(dir, &main, br#"{"@type":"AnnotationStore","@id":"x","resources":[{"@type":"TextResource","@id":"r","@include":"i.store.stam.json"}]}"#),
+        8 => write_file(dir, &main, br#"{"@type":"AnnotationStore","@id":"x","@include":"https://example.org/x.json","resources":[{"@type":"TextResource","@id":"r","@include":"file:///nonexistent"}]}"#),
+        9 | 10 | 11 | 12 => {
+            // STAM CSV manifests that point back at themselves
+            main = "c.store.stam.csv".to_string();
+            csv_fixture(dir);
+            write_file(dir, "c.annotations.stam.csv", CSV_HEADER.as_bytes());
+            let m: &[u8] = match which {
+                9 => b"Type,Id,Filename\nAnnotationStore,c19,c.store.stam.csv\n",
+                10 => b"Type,Id,Filename\nAnnotationStore,c19,c.annotations.stam.csv\nAnnotationDataSet,s,c.store.stam.csv\n",
+                11 => b"Type,Id,Filename\nAnnotationStore,c19,c.annotations.stam.csv\nTextResource,r,c.store.stam.csv\nTextResource,r9,r.json\n",
+                _ => b"Type,Id,Filename\nAnnotationStore,c19,c.annotations.stam.csv\nAnnotationStore,c19,c.annotations.stam.csv\nConfig,x,y\n",
+            };
+            write_file(dir, &main, m);
+            write_file(dir, "r.json", br#"{"@type":"TextResource","@id":"r9","@include":"r.json"}"#);
+        }
+        _ => write_file(dir, &main, store_with("").as_bytes()),
+    }
+    Case { load: Load::File(format!("{}/{}", dir, main), Config::default()), input_bytes: 600, report: report_none, probe: true, note: "files" }
 }
 
 const CELLS: [&str; 14] = ["", "nope", ";", ";;", "x;y", "-1", "99", "0", "TextSelector", "DataKeySelector", "CompositeSelector;TextSelector", "!A0", "!\u{c9}1", "AnnotationStore"];
@@ -600,6 +679,14 @@ fn prepare_targeted(req: &Sx, dir: &str, cache: &mut Cache) -> Case {
                 write_file(dir, "r.json", br#"{"@type":"TextResource","@id":"r","@include":"r.json"}"#);
             }
             Case { load: Load::File(format!("{}/i.store.stam.json", dir), Config::default()), input_bytes: 200, report: report_none, probe: true, note: "resource_include" }
+        }
+        4 => {
+            if req.nth(2).int() == 0 {
+                write_file(dir, "i.store.stam.json", br#"{"@type":"AnnotationStore","@id":"x","@include":"-"}"#);
+            } else {
+                write_file(dir, "i.store.stam.json", br#"{"@type":"AnnotationStore","@id":"x","annotationsets":[{"@type":"AnnotationDataSet","@id":"s","@include":"-"}]}"#);
+            }
+            Case { load: Load::File(format!("{}/i.store.stam.json", dir), Config::default()), input_bytes: 200, report: report_none, probe: true, note: "stdin_include" }
         }
         _ => {
             let inc = req.nth(2).int();
@@ -678,9 +765,22 @@ fn child_main(batch: &str) -> ! {
         let rss0 = rss_kb();
         let peak0 = peak_kb();
         let cpu0 = cpu_ms();
+        let mut scale: Option<(u64, u64)> = None;
         let loaded = guard(|| match &case.load {
             Load::JsonStr(s, cfg) => Some(AnnotationStore::from_str(s, cfg.clone())),
             Load::File(f, cfg) => Some(AnnotationStore::from_file(f, cfg.clone())),
+            Load::Merge(first, second, cfg) => Some(AnnotationStore::from_str(first, cfg.clone()).and_then(|mut st| st.merge_json_str(second).map(|_| st))),
+            Load::Scale(d1, d4) => {
+                let t0 = cpu_ms();
+                let r1 = AnnotationStore::from_str(d1, Config::default());
+                let t1 = cpu_ms();
+                drop(r1);
+                let t2 = cpu_ms();
+                let r4 = AnnotationStore::from_str(d4, Config::default());
+                let t3 = cpu_ms();
+                scale = Some((t1 - t0, t3 - t2));
+                Some(r4)
+            }
             Load::None => None,
         });
         let cpu = cpu_ms().saturating_sub(cpu0);
@@ -714,6 +814,11 @@ fn child_main(batch: &str) -> ! {
             safety = 4;
         } else if safety == 0 && cpu > cpu_budget_ms(case.input_bytes) {
             safety = 5;
+        } else if let Some((t1, t4)) = scale {
+            // four times the input must not take more than seven times the cpu time
+            if safety == 0 && t4 > 300 && t4 > 7 * t1.max(1) {
+                safety = 5;
+            }
         }
         let _ = writeln!(outf, "L {} {} {} {} {} {}", idx, safety, result, grow, cpu, if case.note.is_empty() { "-" } else { case.note });
         let mut p = 0;
@@ -773,7 +878,7 @@ pub fn run_batch(reqs: &[Sx]) -> Vec<Obs> {
             .arg("/dev/null")
             .env("C19_START", start.to_string())
             .env("RUST_BACKTRACE", "0")
-            .stdin(Stdio::null())
+            .stdin(Stdio::piped())
             .stdout(Stdio::null())
             .stderr(Stdio::null())
             .spawn()
@@ -885,7 +990,7 @@ pub fn run_batch(reqs: &[Sx]) -> Vec<Obs> {
 /// the observations of one request as the driver expects them
 fn outputs(req: &Sx, o: &Obs) -> Vec<Sx> {
     match req.nth(0).int() {
-        1 | 2 | 7 => vec![l(vec![a(o.safety)]), if matches!(o.safety, 1 | 2 | 3) { l(vec![a(9)]) } else { o.result.clone() }],
+        1 | 2 | 7 | 8 | 9 => vec![l(vec![a(o.safety)]), if matches!(o.safety, 1 | 2 | 3) { l(vec![a(9)]) } else { o.result.clone() }],
         3 => vec![if o.safety == 1 { l(vec![a(-1)]) } else if o.safety == 2 { l(vec![a(-2)]) } else if o.safety != 0 { l(vec![a(-(o.safety))]) } else { o.result.clone() }],
         _ => vec![l(vec![a(o.safety)])],
     }
@@ -954,6 +1059,9 @@ fn distinct_public(req: &Sx) -> bool {
     let strip = req.nth(1).int() != 0;
     let arrays = if kind == 1 { req.nth(3) } else { req.nth(2) };
     let mut seen = std::collections::HashSet::new();
+    if kind == 9 {
+        seen.insert("base".to_string());
+    }
     for arr in arrays.list() {
         for e in arr.list() {
             if let Some(id) = ostring(e.nth(0)) {
@@ -967,7 +1075,7 @@ fn distinct_public(req: &Sx) -> bool {
 }
 
 fn emit_children(out: &mut Out, reqs: Vec<(Sx, String)>, stats: &mut Stats) {
-    let reqs: Vec<(Sx, String)> = reqs.into_iter().filter(|(r, _)| !matches!(r.nth(0).int(), 1 | 2) || distinct_public(r)).collect();
+    let reqs: Vec<(Sx, String)> = reqs.into_iter().filter(|(r, _)| !matches!(r.nth(0).int(), 1 | 2 | 9) || distinct_public(r)).collect();
     // several children in parallel
     let threads = 4usize;
     let chunk = ((reqs.len() + threads - 1) / threads).max(1);
@@ -1149,6 +1257,14 @@ pub fn generate(out: &mut Out, tier: &str, seed: u64) {
             }
         }
     }
+    // the same arrays merged into a non-empty store (merge_json_str)
+    for strip in [1i64, 0] {
+        for i1 in &ids {
+            for i2 in &ids {
+                reqs.push((l(vec![a(9), a(strip), l(vec![l(vec![elem(&fresh(i1), true, &[]), elem(&fresh(i2), true, &[])])])]), "ann_merge".into()));
+            }
+        }
+    }
     // identifiers with large numbers (memory / allocation failure), annotations and data
     let bigs = ["!A1000000", "!A1500000", "!A99999999999", "!A18446744073709551615", "!A4294967296", "!A4294967295", "!A1073741824", "!A5000", "!A18446744073709551616", "!A+1000000", "!A0001000000"];
     for b in bigs {
@@ -1188,7 +1304,7 @@ pub fn generate(out: &mut Out, tier: &str, seed: u64) {
         }
     }
     // random longer documents
-    for _ in 0..(if thorough { 3000 } else { 300 }) {
+    for _ in 0..(if thorough { 20000 } else { 300 }) {
         let strip = rng.chance(4, 5) as i64;
         let base = rng.chance(1, 2) as i64;
         let narr = 1 + rng.below(3);
@@ -1214,6 +1330,9 @@ pub fn generate(out: &mut Out, tier: &str, seed: u64) {
                 es.push(elem(&id, rng.chance(14, 15), &kinds));
             }
             arrays.push(l(es));
+        }
+        if base == 1 {
+            reqs.push((l(vec![a(9), a(strip), l(arrays.clone())]), "ann_merge_random".into()));
         }
         reqs.push((l(vec![a(1), a(strip), a(base), l(arrays)]), "ann_random".into()));
     }
@@ -1251,7 +1370,7 @@ pub fn generate(out: &mut Out, tier: &str, seed: u64) {
             }
         }
     }
-    for _ in 0..(if thorough { 20000 } else { 1500 }) {
+    for _ in 0..(if thorough { 60000 } else { 1500 }) {
         let cell = |rng: &mut Rng, pool: &[&str]| -> String {
             let n = rng.below(4);
             let mut v: Vec<String> = Vec::new();
@@ -1291,6 +1410,15 @@ pub fn generate(out: &mut Out, tier: &str, seed: u64) {
                 reqs.push((l(vec![a(7), a(1), a(v), a(nts)]), "cbor_handle".into()));
             }
         }
+    }
+    reqs.push((l(vec![a(7), a(4), a(0)]), "stdin_include".into()));
+    reqs.push((l(vec![a(7), a(4), a(1)]), "stdin_include".into()));
+    for w in 0..14i64 {
+        reqs.push((l(vec![a(10), a(w)]), "file_references".into()));
+    }
+    // (8) scaling: n and 4n annotations with inline data
+    for (hasid, samekey) in [(0i64, 1i64), (1, 1), (0, 0), (1, 0)] {
+        reqs.push((l(vec![a(8), a(if thorough { 12000 } else { 8000 }), a(hasid), a(samekey)]), "scale".into()));
     }
     reqs.push((l(vec![a(7), a(2), a(1)]), "resource_include".into()));
     reqs.push((l(vec![a(7), a(2), a(0)]), "resource_include".into()));
@@ -1386,6 +1514,6 @@ pub fn generate(out: &mut Out, tier: &str, seed: u64) {
     out.count_n("max_cpu_ms_measured", stats.max_cpu_ms);
 }
 
-pub const RULE: &str = "String parsers in process: every string of length <=4 (thorough 5) over {+,-,0,1,9,x,space} and boundary values around 2^63/2^64 for Cursor, every keyword of Type/SelectorKind/DataFormat in case/letter variants (incl. U+212A, U+0130), every string of length <=3 (thorough 4) over {!,A,R,U+C9,U+FF21,U+1D400,a,0,1,9,+,-} through every id lookup. Documents in child processes (ulimit -v 2 GiB, stdin closed, hang = 20 s without progress; memory budget 48 MiB + input/4, cpu budget 1.5 s + 4 us/byte, both measured): annotations/data arrays of <=3 items over 10 identifier shapes x buildable or not x one or two arrays x strip_temp_ids on/off x empty or non-empty store, identifiers with numbers up to 2^64, composite targets over all pairs (thorough triples) of sub-selector kinds, random longer documents; CSV rows: every simple selector kind x reference/offset/key column shapes, complex rows over all pairs of sub-selector kinds with full, missing, short and empty columns, random rows; @include chains and cycles; CBOR nesting depth and out-of-range handles; generic mutations of library-written JSON (delete/duplicate/swap every node, retype, dangling/cyclic/temporary references, extreme integers, truncation, bit flips), CSV (truncation, bit flips, cell replacement in every file) and CBOR (truncation at every (quick: third) byte, bit flips). Non-trivial: the document loads and the lookups run. distinct = distinct request lines.";
+pub const RULE: &str = "String parsers in process: every string of length <=4 (thorough 5) over {+,-,0,1,9,x,space} and boundary values around 2^63/2^64 for Cursor, every keyword of Type/SelectorKind/DataFormat in case/letter variants (incl. U+212A, U+0130), every string of length <=3 (thorough 4) over {!,A,R,U+C9,U+FF21,U+1D400,a,0,1,9,+,-} through every id lookup. Documents in child processes (ulimit -v 2 GiB, stdin closed, hang = 60 s without progress; memory budget 48 MiB + input/4, cpu budget 1.5 s + 4 us/byte, both measured): annotations/data arrays of <=3 items over 10 identifier shapes x buildable or not x one or two arrays x strip_temp_ids on/off x empty or non-empty store, identifiers with numbers up to 2^64, composite targets over all pairs (thorough triples) of sub-selector kinds, random longer documents; CSV rows: every simple selector kind x reference/offset/key column shapes, complex rows over all pairs of sub-selector kinds with full, missing, short and empty columns, random rows; @include chains and cycles, \"-\" as include, self-referring manifests and other odd file references; the same arrays through merge_json_str; cpu time of n against 4n annotations with inline data (with/without ids, one key/one key each); CBOR nesting depth and out-of-range handles; generic mutations of library-written JSON (delete/duplicate/swap every node, retype, dangling/cyclic/temporary references, extreme integers, truncation, bit flips), CSV (truncation, bit flips, cell replacement in every file) and CBOR (truncation at every (quick: third) byte, bit flips). Non-trivial: the document loads and the lookups run. distinct = distinct request lines.";
 
 pub const EXHAUSTIVE: bool = true;
